@@ -26,6 +26,7 @@ def plan(tier, seed):
         specs.append({"kind": "field", "idx": i, "n": 4000 if tier == "quick" else 30000})
     for i in range(2 if tier == "quick" else 6):
         specs.append({"kind": "secrecy", "idx": i, "budget_s": 20 if tier == "quick" else 150})
+    specs.append({"kind": "fork", "idx": 0, "trials": 12 if tier == "quick" else 120})
     return specs
 
 
@@ -33,7 +34,7 @@ def finalize(agg, tier):
     c = agg["counters"]
     out = []
     for name in ("split_checked", "combine_checked", "dup_refused", "tape_coeff_matched",
-                 "secrecy_checked", "field_mul", "field_inv"):
+                 "secrecy_checked", "field_mul", "field_inv", "fork_trials"):
         if not c.get(name):
             out.append("deciding counter %s is zero" % name)
     return out
@@ -61,10 +62,59 @@ def run(spec, ctx):
         field(spec, ctx, SS, gf128)
     elif kind == "secrecy":
         secrecy(spec, ctx, SS, gf128, entropy)
+    elif kind == "fork":
+        fork_freshness(spec, ctx, SS)
+
+
+def fork_freshness(spec, ctx, SS):
+    """Coefficients are drawn from the random source by the process that deals: after a fork, parent and child dealing the
+    SAME secret must hand out different shares (equal shares mean both used the same 'random' coefficients, and one share
+    of each dealing then reveals the XOR of two different secrets).  The operating system's source is used here, no tape."""
+    import os
+    rng = ctx.rng
+    for trial in range(spec["trials"]):
+        k = rng.choice([2, 3, 5])
+        n = k + 1
+        ssss = bool(trial % 2)
+        secret = _b(rng.getrandbits(128))
+        for _ in range(trial % 3):                 # 0, 1 or 2 dealings before the fork
+            SS.Shamir.split(rng.choice([2, 3, 4]), 5, _b(rng.getrandbits(128)), ssss)
+        r, w_ = os.pipe()
+        pid = os.fork()
+        if pid == 0:
+            try:
+                os.close(r)
+                sh = SS.Shamir.split(k, n, secret, ssss)
+                os.write(w_, b"".join(bytes(s) for _, s in sh))
+            finally:
+                os._exit(0)
+        os.close(w_)
+        mine = SS.Shamir.split(k, n, secret, ssss)
+        data = b""
+        while True:
+            chunk = os.read(r, 4096)
+            if not chunk:
+                break
+            data += chunk
+        os.close(r)
+        os.waitpid(pid, 0)
+        ctx.case(("fork", k, ssss, trial % 3))
+        if len(data) != 16 * n:
+            ctx.inconclusive_reason("the forked child did not deliver its shares (%d bytes)" % len(data))
+            return
+        theirs = [data[16 * j:16 * j + 16] for j in range(n)]
+        ctx.count("fork_trials")
+        ctx.check(all(bytes(a[1]) != b for a, b in zip(mine, theirs)), "split:same-coefficients-after-fork",
+                  "parent and forked child dealt the same secret and handed out identical shares: the coefficients were not "
+                  "drawn from the random source by each process",
+                  lambda: {"k": k, "n": n, "ssss": ssss, "dealings_before_fork": trial % 3,
+                           "parent": [bytes(s).hex() for _, s in mine], "child": [b.hex() for b in theirs]})
 
 
 def split_with_tape(SS, entropy, k, n, secret, ssss, tape_bytes):
-    t = entropy.Tape(tape_bytes)
+    # reads beyond the scripted bytes are served from a seeded generator (an implementation may fetch more than it uses)
+    import random as _r
+    t = entropy.Tape(tape_bytes, rng=_r.Random(tape_bytes))
     with t:
         shares = SS.Shamir.split(k, n, _b(secret), ssss)
     return shares, t
@@ -81,8 +131,10 @@ def check_split(ctx, gf128, k, n, secret, ssss, shares, tape, tape_bytes, desc):
                    "split:shape", "split() must return n (index, 16-byte) shares with indexes 1..n", w)
     if not ok:
         return None
-    ctx.check(tape.consumed == 16 * (k - 1) and tape.pos == 16 * (k - 1),
-              "split:entropy-amount", "split() must draw exactly k-1 coefficients of 16 bytes from the random source", w)
+    # the amount requested is recorded, not judged (the statement asks where the coefficients come from, not how many
+    # bytes are fetched); too few bytes cannot give k-1 coefficients that match the tape below
+    ctx.count("entropy_amount:exactly-16(k-1)" if tape.consumed == 16 * (k - 1) else
+              "entropy_amount:more" if tape.consumed > 16 * (k - 1) else "entropy_amount:less")
     pts = []
     for i, s in shares:
         y = int.from_bytes(s, "big")
